@@ -215,6 +215,13 @@ REG.spec('agent/executing/popen.py:Popen.cancel_task',
 def _handle_task(ex, node, st):
     p = ex.ev_path(node.args[0], st)
     t = ex.read_path(st, *p)
+    # C07: from the moment the process exists the watcher and the cancel handler can
+    # meet the task; both decide ownership by the entry in _tasks, so the entry has to
+    # be there before the task is handed to the launcher (and the watch queue)
+    reg = ex.get_var(st, 'self._tasks')
+    ex.oblige(st, 'registered-as-owned-before-it-is-launched@L%s' % ex.cur_line,
+              z3.Select(reg.ty.dom(reg.term), t.ty.get(t.term, 'uid')), 'post',
+              note='the ownership entry in _tasks exists before _handle_task spawns the process and queues it for the watcher')
     e = st.fork(); e.guards = []
     # failure before the spawn: task unchanged, no process
     ex.exits.append(('Exception', e, ex.cur_line))
